@@ -28,20 +28,26 @@
 (*            SetUnsignedField, AddSignature, Redact)                      *)
 (*   sib     Build, one optional operation, then Sibling(f): a second      *)
 (*           event built from the proto-event changed in exactly field f   *)
-(*   tamper  Build, one optional operation, Tamper(T, hm) on the wire,     *)
+(*   tamper  Build, one optional operation, Tamper(T, hm, sp) on the wire  *)
+(*           (sp: how the names of the keys stripped on receipt are spelt) *)
+(*           or TamperDup (a top-level member written twice), then         *)
 (*           ReparseUntrusted                                              *)
+(*   sid     as ops, with every enumerated spelling of the signer identity *)
+(*           (server name x key ID, SidPairs); the other families rotate   *)
+(*           the spellings over their scenarios                            *)
 (***************************************************************************)
 EXTENDS Redaction
 
 CONSTANTS Versions,     \* room versions enumerated
-          Family,       \* "ops" | "num" | "len" | "sib" | "tamper"
+          Family,       \* "ops" | "num" | "len" | "sid" | "sib" | "tamper"
           ShapeIds,     \* event shapes (type x state key x content) enumerated
           VariantIds,   \* prev/auth/depth/unsigned variants enumerated
           MaxOps,       \* ops: length of the behaviours
           Alphabet,     \* ops: operations enumerated
           PreOps,       \* sib / tamper: the optional operation before ("none" = skip)
           SibFields,    \* sib: fields f enumerated
-          TamperMax     \* tamper: subsets T with at most TamperMax or at least (all - 1) elements
+          TamperMax,    \* tamper: subsets T with at most TamperMax or at least (all - 1) elements
+          SidPairs      \* sid: spellings <<server name class, key ID class>> of the signer identity enumerated
 
 VARIABLES ver,       \* room version
           proto,     \* the proto-event handed to EventBuilder.Build
@@ -182,13 +188,44 @@ LimKinds(v) == IF Family = "len" THEN (FineLims \cup OverLims) \ (IF PseudoIDs(v
 BuildRefuses(v, p) == \/ (EnforcedCanonJSON(v) /\ p.num \in NonCanonicalNums)
                       \/ (p.lim \in OverLims /\ ~(Family = "tamper" /\ p.lim \in PersistLims))
 
-ProtoOf(i, w, n, lm) ==
+\* --- signer identities (family sid; rotated over the scenarios of the other families) ----------------------
+\* "All signer identities": a signer is (server name, key ID, key).  origin / sigkey say WHICH server and WHICH of
+\* its keys signs; how the server name and the key ID are SPELT is a dimension of its own.  Every class is inside
+\* the grammar of the Matrix specification - Appendices "Server name": dns-name (letters, digits, "-", "."; up to
+\* 255 characters) / IPv4 literal / bracketed IPv6 literal, each with an optional port; server-server API
+\* "Publishing keys": key ID = algorithm ":" version, the version made of [a-zA-Z0-9_] - so the event signed under
+\* such an identity is an event like any other: no clause reads the spelling, Build must hand the event out
+\* (PBuildOrRefuse) and every operation must treat it as it treats the plainly spelt one.
+NameSpellings == {"dns", "port", "ipv4", "ipv4port", "ipv6", "ipv6port", "label", "long"}
+    \* hs1.example.org  ...:8448  203.0.113.1  ...:8448  [2001:db8::1]  [...]:8448  one label with "-"  207 characters
+KeySpellings == {"alnum", "under", "leadunder", "digits", "upper", "long"}
+    \* ed25519:k1  ed25519:a_RXGk1  ed25519:_k1  ed25519:1  ed25519:K1  ed25519:<128 characters of all four kinds>
+AllSpellings == NameSpellings \X KeySpellings
+PlainSpelling == <<"dns", "alnum">>
+NameSeq == <<"dns", "port", "ipv4", "ipv6port", "label", "ipv4port", "ipv6", "long">>
+KeySeq == <<"alnum", "under", "digits", "long", "upper", "leadunder">>
+ASSUME /\ {NameSeq[k] : k \in DOMAIN NameSeq} = NameSpellings
+       /\ {KeySeq[k] : k \in DOMAIN KeySeq} = KeySpellings
+VerRank(v) == 2 * BaseOf(v) + (IF v \in UnstableVersions THEN 1 ELSE 0)
+\* the spellings enumerated for a scenario: family sid all of SidPairs; elsewhere one, rotating with the scenario.
+\* Pseudo-ID room versions: the signer is the sender's key under the key ID the MSC fixes - nothing to spell.
+\* Family tamper (C04) reads the verdict of the signature check, which asks for the signature of the SENDER's
+\* server: the name stays the sender's, the key ID rotates.
+SpellingsOf(v, i, w) ==
+    LET k == VerRank(v) + i + w IN
+    IF PseudoIDs(v) THEN {PlainSpelling}
+    ELSE IF Family = "sid" THEN SidPairs
+    ELSE IF Family = "tamper" THEN {<<"dns", KeySeq[(k % Len(KeySeq)) + 1]>>}
+    ELSE {<<NameSeq[(k % Len(NameSeq)) + 1], KeySeq[(k % Len(KeySeq)) + 1]>>}
+
+ProtoOf(i, w, n, lm, sp) ==
     LET s == Shape(i)  x == Variant(w) IN
     [type |-> s.type, redacts |-> s.redacts, tpi |-> s.tpi, num |-> n, lim |-> lm,
      sk |-> IF lm \in {"sk-b255", "sk-cp255", "sk-b256"} THEN "long" ELSE s.sk,
      con |-> IF n = "none" THEN s.con ELSE [k \in DOMAIN s.con \cup {"zz_num"} |-> IF k = "zz_num" THEN n ELSE s.con[k]],
      prev |-> x.prev, auth |-> x.auth, depth |-> x.depth, unsigned |-> x.unsigned,
-     room |-> "r1", sender |-> "alice", ts |-> x.ts, origin |-> "hs1", sigkey |-> "k1"]
+     room |-> "r1", sender |-> "alice", ts |-> x.ts, origin |-> "hs1", sigkey |-> "k1",
+     sname |-> sp[1], skey |-> sp[2]]
 
 IsCreate(p) == p.type = "m.room.create" /\ p.sk = "empty"
 \* room versions with domainless room IDs: the create event carries no room_id (the room ID *is* its event ID)
@@ -245,10 +282,12 @@ Log(op, arg, e2, r2) ==
     /\ ids' = Append(ids, Id(ver, e2))
 
 NoOut == [kind |-> "none"]
+OpsFamilies == {"ops", "num", "len", "sid"}      \* Build, then MaxOps operations
 
 Init ==
     /\ \E v \in Versions, w \in VariantIds, n \in NumKinds : \E i \in ShapesOf(v) : \E lm \in LimKinds(v) :
-          LET p == ProtoOf(i, w, n, lm) IN
+       \E sp \in SpellingsOf(v, i, w) :
+          LET p == ProtoOf(i, w, n, lm, sp) IN
           \* the create event cited explicitly: where there is a room ID to derive it from
           /\ (w \in CreateCiting => DomainlessRoomIDs(v) /\ ~Roomless(v, p))
           \* tamper: the over-long state key / type on the custom state event
@@ -264,7 +303,7 @@ Init ==
     /\ wire = NoEvent
     /\ out = NoOut
     /\ phase = IF BuildRefuses(ver, proto) THEN "refused"       \* no event: nothing else can happen
-              ELSE IF Family \in {"ops", "num", "len"} THEN "ops" ELSE "pre"
+              ELSE IF Family \in OpsFamilies THEN "ops" ELSE "pre"
 
 \* --- operations (each is one public call on the PDU) -----------------------------------------------------------
 OpNames == {"RU", "RT", "RH", "SU1", "SU2", "SF", "AS1", "AS2", "RD"}
@@ -383,7 +422,23 @@ TamperApplicable(v, e, x) ==
 ApplicableElems(v, e) == {x \in TamperElems : TamperApplicable(v, e, x)}
 
 OnIf(c, e, k, val) == IF c THEN SetTop(e, k, val) ELSE e
-ApplyT(v, e, T) ==
+
+\* How the NAME of a key that is stripped on receipt is written on the wire (class: unusual spellings).  A member
+\* name is a JSON string: "\u0061ge_ts" IS the name age_ts (RFC 8259, section 7: the escapes are part of the
+\* spelling, not of the string), so "esc" is the plain tampering in other bytes - the model has ONE event for both
+\* and therefore one outcome.  A name in other letter case ("Age_TS") is ANOTHER name (names are compared code point
+\* by code point): not stripped, on no keep list, covered by the content hash - one more unknown top-level key.
+WireSpells == {"plain", "esc", "case"}
+StrippedElems(v) == {"unsigned", "age_ts", "outdest"} \cup (IF EventFormat(v) = 2 THEN {"event_id"} ELSE {})
+OtherCase(k) == CASE k = "unsigned" -> "Unsigned" [] k = "age_ts" -> "Age_TS" [] k = "outlier" -> "OUTLIER"
+                  [] k = "destinations" -> "Destinations" [] k = "event_id" -> "Event_ID"
+NameOnWire(v, k, sp) == IF sp = "case" /\ k \in Stripped(v) THEN OtherCase(k) ELSE k
+\* room versions on which the spelling and the multiplicity dimensions are enumerated (a configuration may
+\* override the definition with a spread)
+WireVersions == Versions
+DupShapes == ShapeIds
+
+ApplyT(v, e, T, sp) ==
     LET e1 == IF "con_out_chg" \in T THEN SetCon(e, Pick(OutKeys(v, e)), "tampered") ELSE e
         e2 == IF "con_out_add" \in T THEN SetCon(e1, "zz_added", "tampered") ELSE e1
         e3 == IF "con_in" \in T THEN SetCon(e2, Pick(InKeys(v, e)), "tampered") ELSE e2
@@ -394,10 +449,11 @@ ApplyT(v, e, T) ==
         e4 == OnIf("top_add" \in T, e3b, "zz_top", "tampered")
         e5 == OnIf("origin_chg" \in T, e4, "origin", "tampered")
         e6 == OnIf("depth_chg" \in T, e5, "depth", "tampered")
-        e7 == OnIf("unsigned" \in T, e6, "unsigned", "tampered")
-        e8 == OnIf("age_ts" \in T, e7, "age_ts", "tampered")
-        e9 == OnIf("outdest" \in T, OnIf("outdest" \in T, e8, "outlier", "tampered"), "destinations", "tampered")
-    IN OnIf("event_id" \in T, e9, "event_id", "tampered")
+        e7 == OnIf("unsigned" \in T, e6, NameOnWire(v, "unsigned", sp), "tampered")
+        e8 == OnIf("age_ts" \in T, e7, NameOnWire(v, "age_ts", sp), "tampered")
+        e9 == OnIf("outdest" \in T, OnIf("outdest" \in T, e8, NameOnWire(v, "outlier", sp), "tampered"),
+                   NameOnWire(v, "destinations", sp), "tampered")
+    IN OnIf("event_id" \in T, e9, NameOnWire(v, "event_id", sp), "tampered")
 
 ApplyH(v, e, hm) ==
     CASE hm = "keep" -> e
@@ -408,24 +464,26 @@ ApplyH(v, e, hm) ==
 
 \* elements that change what the content hash covers (after the keys stripped on receipt are gone)
 HashedElems(v) == TamperElems \ ({"unsigned", "age_ts", "outdest"} \cup (IF EventFormat(v) = 2 THEN {"event_id"} ELSE {}))
+\* ... under a spelling: a name in other letter case is not the stripped key, it stays and is hashed
+HashedElemsSp(v, sp) == HashedElems(v) \cup (IF sp = "case" THEN StrippedElems(v) ELSE {})
 
-Tamper(T, hm) ==
+Tamper(T, hm, sp) ==
     /\ phase = "tamper"
-    /\ wire' = ApplyH(ver, ApplyT(ver, ev, T), hm)
-    /\ out' = [kind |-> "tampered", T |-> T, hm |-> hm,
+    /\ wire' = ApplyH(ver, ApplyT(ver, ev, T, sp), hm)
+    /\ out' = [kind |-> "tampered", T |-> T, hm |-> hm, sp |-> sp,
                kout |-> IF "con_out_chg" \in T THEN Pick(OutKeys(ver, ev)) ELSE "",
                kin |-> IF "con_in" \in T THEN Pick(InKeys(ver, ev)) ELSE ""]
     /\ phase' = "parse"
     /\ UNCHANGED <<ver, proto, built, ev, sigs, redacted, ids, hist>>
 
 \* the receiving server parses what arrived
-ParseTampered ==
-    /\ phase = "parse"
+ParseSingle ==
+    /\ phase = "parse" /\ out.kind = "tampered"
     /\ LET r == ParseUntrusted(ver, wire) IN
           /\ ev' = r.e
           /\ redacted' = r.red
           /\ Log("TRU", out.hm, r.e, r.red)
-          /\ out' = [kind |-> "tamper", T |-> out.T, hm |-> out.hm, kout |-> out.kout, kin |-> out.kin,
+          /\ out' = [kind |-> "tamper", T |-> out.T, hm |-> out.hm, sp |-> out.sp, kout |-> out.kout, kin |-> out.kin,
                      red |-> r.red,
                      noop |-> RedactV(ver, Received(ver, wire)) = Received(ver, wire),   \* nothing to redact
                      topk |-> DOMAIN r.e.top, conk |-> DOMAIN r.e.con, tpik |-> DOMAIN r.e.tpi.keys,
@@ -444,7 +502,7 @@ PreRedacted == Len(hist) > 0 /\ hist[1].op = "RD"
 SecondSignerShape == "membership" \in DOMAIN proto.con /\ (proto.con["membership"] = "invite"
                         \/ (IF "join_authorised_via_users_server" \in DOMAIN proto.con
                             THEN proto.con["join_authorised_via_users_server"] = "hs2" ELSE FALSE))
-TamperNext ==
+TamperPlain ==
     /\ phase = "tamper"
     /\ \E T \in (IF PreRedacted \/ SecondSignerShape \/ Len(hist) > 0 \/ proto.lim # "none"
                   THEN {X \in SUBSET ApplicableElems(ver, ev) : Cardinality(X) <= (IF TamperMax > 2 /\ ~PreRedacted THEN 2 ELSE 1)}
@@ -452,11 +510,114 @@ TamperNext ==
        \E hm \in HashModes :
         \* a forger's re-hash of unchanged hashed material is the original hash: same as "keep"
         /\ ((hm = "rehash") => (T \cap HashedElems(ver) # {})) = TRUE
-        /\ Tamper(T, hm)
+        /\ Tamper(T, hm, "plain")
+
+\* the spelling dimension: every key stripped on receipt alone, two of them, and one next to a forged content key
+\* (so that the redacted path strips them too), in the two other spellings x {hash kept, garbage, the forger's}
+\* on the event as built
+SpeltSets(v) == {T \in SUBSET (StrippedElems(v) \cup {"con_out_add"}) :
+                    /\ T \cap StrippedElems(v) # {}
+                    /\ Cardinality(T) <= (IF TamperMax > 2 THEN 3 ELSE 2)
+                    /\ (TamperMax <= 2 /\ Cardinality(T) = 2 => "con_out_add" \in T)}
+TamperSpelt ==
+    /\ phase = "tamper" /\ Len(hist) = 0 /\ proto.lim = "none" /\ ver \in WireVersions
+    /\ \E T \in SpeltSets(ver), sp \in WireSpells \ {"plain"}, hm \in {"keep", "garbage", "rehash"} :
+        /\ ((hm = "rehash") => (T \cap HashedElemsSp(ver, sp) # {})) = TRUE
+        \* event_id is on the keep list (of every version): "Event_ID" differs from a protected key only in case, and
+        \* what the library makes of such a key is the open C05 finding (it also reaches the event ID) - not enumerated
+        /\ ((sp = "case") => ("event_id" \notin T)) = TRUE
+        /\ Tamper(T, hm, sp)
+
+\* --- a top-level member that occurs TWICE in the wire text (class: multiplicity) -----------------------------------
+\* RFC 8259: "when the names within an object are not unique, the behavior of software that receives such an
+\* object is unpredictable"; the usual parsers take the first or the last copy.  Such a text has two READINGS (the
+\* event with the first copy, the event with the last copy), each an ordinary event.  What C04 entitles us to demand
+\* of the parser is modest: whatever it makes of the text, what it hands out is ONE reading - unredacted only if the
+\* content hash of THAT reading matches, else that reading's redacted form - or it refuses the text.  So a copy that
+\* the hash check did not see is observable nowhere.
+\*   m    the member that is doubled: one genuine copy and one smuggled copy (content with forged keys, another
+\*        type / depth / state key / event_id, a garbage `hashes`), or - for the keys stripped on receipt, which the
+\*        built event does not carry - two different added copies
+\*   pos  where the smuggled copy stands: "before" or "after" the genuine one
+\*   sp   how the smuggled copy's name is spelt ("esc": with a \u escape - the same name)
+\*   hm   the `hashes` the text carries: "keep" as built; "rehash": the smuggled reading's hash; "both" / "bothswap":
+\*        the hash of the text with both copies in it (in wire order / swapped; of the keys stripped on receipt: with
+\*        only the first / only the last copy removed), which is the content hash of NO reading
+DupMembers == {"content", "type", "depth", "state_key", "event_id", "hashes", "unsigned", "age_ts"}
+DupApplicable(v, e, m) == m \in DOMAIN e.top \/ m \in Stripped(v)
+DupAdded(v, e, m) == m \notin DOMAIN e.top          \* both copies are additions
+\* the smuggled type: m.room.create, whose keep list differs most (all of the content from room version 11 on).
+\* Room versions with domainless room IDs: type m.room.create + empty state key + a room_id is the create event
+\* of a partial implementation, which the library tolerates on purpose; its RoomID() is C03's subject - there the
+\* smuggled type is m.room.member.
+SmuggledType(v, e) ==
+    IF e.type = "m.room.create" THEN "other"
+    ELSE IF DomainlessRoomIDs(v) /\ (IF "state_key" \in DOMAIN e.top THEN e.top["state_key"] = "empty" ELSE FALSE)
+         THEN "m.room.member"
+    ELSE "m.room.create"
+Smuggled(v, e, m) ==
+    CASE m = "content" -> [e EXCEPT !.con = [k \in DOMAIN e.con \cup {"zz_added"} |->
+                                                 IF k = NestedKey THEN e.con[k] ELSE "tampered"]]
+      [] m = "type" -> [SetTop(e, "type", SmuggledType(v, e)) EXCEPT !.type = SmuggledType(v, e)]
+      [] m = "hashes" -> SetTop(e, "hashes", Garbage)
+      [] OTHER -> SetTop(e, m, "tampered")
+NoReading(tag) == H([NoEvent EXCEPT !.type = tag])       \* the hash of a text that is no event
+DupHashModes(v, e, m) ==
+    IF m = "hashes" THEN {"keep"}
+    ELSE IF m = "unsigned" THEN {"keep"}                  \* never covered by the content hash, stripped or not
+    ELSE IF DupAdded(v, e, m) THEN {"keep", "both", "bothswap"}
+    ELSE {"keep", "rehash", "both", "bothswap"}
+DupReadings(v, e, m, pos, hm) ==
+    LET g == IF DupAdded(v, e, m) THEN SetTop(e, m, "tampered2") ELSE e
+        s == Smuggled(v, e, m)
+        hv == CASE hm = "rehash" -> ContentHash(Received(v, s))
+                [] hm = "both" -> NoReading("both")
+                [] hm = "bothswap" -> NoReading("bothswap")
+                [] OTHER -> Garbage
+        wh(x) == IF hm = "keep" THEN x ELSE SetTop(x, "hashes", hv)
+    IN [first |-> wh(IF pos = "before" THEN s ELSE g), last |-> wh(IF pos = "before" THEN g ELSE s)]
+
+TamperDup ==
+    /\ phase = "tamper" /\ Len(hist) = 0 /\ proto.lim = "none" /\ ver \in WireVersions
+    /\ \E i \in DupShapes : proto.con = Shape(i).con /\ proto.type = Shape(i).type /\ proto.sk = Shape(i).sk
+    /\ \E m \in DupMembers, pos \in {"before", "after"}, sp \in {"plain", "esc"} :
+       \E hm \in DupHashModes(ver, ev, m) :
+        /\ DupApplicable(ver, ev, m)
+        /\ (DupAdded(ver, ev, m) => pos = "before")                      \* two additions: the order says nothing
+        /\ (sp = "esc" => m \in {"content", "type", "event_id", "age_ts"})
+        /\ wire' = DupReadings(ver, ev, m, pos, hm).last
+        /\ out' = [kind |-> "duplicated", m |-> m, pos |-> pos, sp |-> sp, hm |-> hm,
+                   rd |-> DupReadings(ver, ev, m, pos, hm)]
+        /\ phase' = "parse"
+        /\ UNCHANGED <<ver, proto, built, ev, sigs, redacted, ids, hist>>
+
+\* the parser settles for one reading (which one is its business) and treats it as the event that arrived
+Readings == {"first", "last"}
+DupSummary(v, x) ==
+    LET rc == Received(v, x)  rr == RedactV(v, rc) IN
+    [ok |-> HashOK(rc), typ |-> x.type,
+     itop |-> DOMAIN rc.top, icon |-> DOMAIN rc.con,
+     rtop |-> DOMAIN rr.top, rcon |-> DOMAIN rr.con, rtpi |-> DOMAIN rr.tpi.keys]
+ParseDuplicated ==
+    /\ phase = "parse" /\ out.kind = "duplicated"
+    /\ \E c \in Readings :
+       LET r == ParseUntrusted(ver, out.rd[c]) IN
+          /\ ev' = r.e
+          /\ redacted' = r.red
+          /\ Log("TRU", out.hm, r.e, r.red)
+          /\ out' = [kind |-> "dup", m |-> out.m, pos |-> out.pos, sp |-> out.sp, hm |-> out.hm, rd |-> out.rd,
+                     chosen |-> c, red |-> r.red,
+                     styp |-> IF out.m = "type" THEN SmuggledType(ver, built) ELSE "",
+                     first |-> DupSummary(ver, out.rd["first"]), last |-> DupSummary(ver, out.rd["last"])]
+    /\ phase' = "done"
+    /\ UNCHANGED <<ver, proto, built, sigs, wire>>
+
+TamperNext == TamperPlain \/ TamperSpelt \/ TamperDup
+ParseTampered == ParseSingle \/ ParseDuplicated
 
 Next ==
-    \/ (Family \in {"ops", "num", "len"} /\ OpsNext)
-    \/ (Family \notin {"ops", "num", "len"} /\ Pre)
+    \/ (Family \in OpsFamilies /\ OpsNext)
+    \/ (Family \notin OpsFamilies /\ Pre)
     \/ (Family = "sib" /\ \E f \in SibFields : Sibling(f))
     \/ (Family = "tamper" /\ TamperNext)
     \/ (Family = "tamper" /\ ParseTampered)
@@ -505,12 +666,12 @@ PV12 ==
                                  /\ RoomRef(ver, built) = [given |-> proto.room])
 
 \* C04 ------------------------------------------------------------------------------------------------
-TDone == phase = "done" /\ Family = "tamper"
-HashAltered == out.hm \in {"garbage", "remove", "extra"} \/ (out.hm = "rehash" /\ out.T \cap HashedElems(ver) # {})
+TDone == phase = "done" /\ Family = "tamper" /\ out.kind = "tamper"
+HashAltered == out.hm \in {"garbage", "remove", "extra"} \/ (out.hm = "rehash" /\ out.T \cap HashedElemsSp(ver, out.sp) # {})
 \* the content hash no longer matches the hashed fields
 \* (an event redacted before it is sent keeps the hash of its unredacted form: no match unless nothing was removed)
 BaseOK == PreRedacted => HashOK(Received(ver, RedactV(ver, built)))
-Mismatch == out.hm \in {"garbage", "remove"} \/ (out.hm \in {"keep", "extra"} /\ (out.T \cap HashedElems(ver) # {} \/ ~BaseOK))
+Mismatch == out.hm \in {"garbage", "remove"} \/ (out.hm \in {"keep", "extra"} /\ (out.T \cap HashedElemsSp(ver, out.sp) # {} \/ ~BaseOK))
 \* material the redaction algorithm of the version strips (or the receiver strips)
 Redactable(x) ==
     CASE x = "con_out_chg" -> TRUE
@@ -539,9 +700,43 @@ PIdSigIff ==
     TDone => ((out.idsame /\ out.valid = DOMAIN sigs) <=> OnlyRedactable)
 \* signatures stand or fall together (all cover the same projection)
 PSigsTogether == TDone => (out.valid = DOMAIN sigs \/ out.valid = {})
+\* "adding a key that is stripped on receipt never breaks the hash", however its name is written - as long as it IS
+\* that name: the escaped spelling has the outcome of the plain one, field by field (one abstract event), and a
+\* tampering made of stripped keys only leaves the event as built
+PSpellingNeutral ==
+    (TDone /\ out.sp # "case" /\ out.T \subseteq StrippedElems(ver) /\ out.hm = "keep" /\ ~PreRedacted) =>
+        (~out.red /\ ev = Received(ver, built) /\ out.idsame /\ out.valid = DOMAIN sigs)
+\* ... and a name in other letter case is an unknown top-level key like any other: hashed, and gone after redaction
+PCaseIsAnotherKey ==
+    (TDone /\ out.sp = "case" /\ out.hm = "keep") =>
+        (out.red /\ \A k \in Stripped(ver) : OtherCase(k) \notin out.topk)
+
+\* C04, a member that occurs twice: what is handed out is ONE reading of the text - unredacted only if the content
+\* hash of that reading matches, otherwise its redacted form ((ii) and (iii); a refusal hands out nothing)
+DDone == phase = "done" /\ Family = "tamper" /\ out.kind = "dup"
+PDupOneReading ==
+    DDone => \E c \in Readings :
+                LET rc == Received(ver, out.rd[c]) IN
+                IF redacted THEN ev = RedactV(ver, rc) ELSE (ev = rc /\ HashOK(rc))
+\* consequences that must hold (sanity of the model): under the hash of the built event nothing but the built event
+\* is handed out unredacted; the hash of the two-copy text admits no reading; the summaries the generator emits
+\* describe the candidates
+PDupGenuineOnly ==
+    (DDone /\ out.hm = "keep" /\ ~redacted) => ev = Received(ver, built)
+PDupNoReadingHash ==
+    (DDone /\ out.hm \in {"both", "bothswap"}) => (redacted /\ ~out.first.ok /\ ~out.last.ok)
+PDupForgerOnly ==
+    (DDone /\ out.hm = "rehash" /\ ~redacted) =>
+        DropTop(ev, {"hashes"}) = DropTop(Received(ver, Smuggled(ver, built, out.m)), {"hashes"})
+PDupSummaries ==
+    DDone => LET s == IF out.chosen = "first" THEN out.first ELSE out.last IN
+             /\ (~redacted => s.ok /\ DOMAIN ev.top = s.itop /\ DOMAIN ev.con = s.icon)
+             /\ (redacted => DOMAIN ev.top = s.rtop /\ DOMAIN ev.con = s.rcon /\ DOMAIN ev.tpi.keys = s.rtpi)
+             /\ ev.type = s.typ
 
 TypeOK ==
     /\ WellFormed(ev) /\ WellFormed(built)
+    /\ <<proto.sname, proto.skey>> \in AllSpellings
     /\ Len(ids) = Len(hist) + 1
     /\ phase \in {"ops", "pre", "sib", "tamper", "parse", "done", "refused"}
 =============================================================================
